@@ -20,7 +20,7 @@ use p3_circuit_prover::{
     BatchStarkProver, CircuitProverData, ConstraintProfile, TablePacking, recompose_air_builders,
     recompose_preprocessor,
 };
-use p3_field::extension::BinomialExtensionField;
+use p3_field::extension::{BinomialExtensionField, QuinticTrinomialExtensionField};
 use p3_field::{BasedVectorSpace, Field, PrimeCharacteristicRing, PrimeField64};
 use p3_goldilocks::Goldilocks;
 use p3_koala_bear::KoalaBear;
@@ -205,11 +205,12 @@ base_field_impl!(kb1, KoalaBear, KoalaBearConfig, config::koala_bear);
 base_field_impl!(gl1, Goldilocks, GoldilocksConfig, config::goldilocks);
 
 macro_rules! ext_field_impl {
-    ($m:ident, $BF:ty, $D:expr, $SC:ty, $cfg:path) => {
+    ($m:ident, $BF:ty, $EF:ty, $D:expr, $SC:ty, $cfg:path) => {
+        #[allow(dead_code)]
         mod $m {
             use super::*;
             type BF = $BF;
-            type EF = BinomialExtensionField<BF, $D>;
+            type EF = $EF;
             pub const D: usize = $D;
 
             fn ef(l: &[u64]) -> EF {
@@ -339,13 +340,164 @@ macro_rules! ext_field_impl {
                 let t = runner.run().ok()?;
                 t.probe("r").map(limbs)
             }
+
+            /// Reduction vector of the modulus: limbs of `X^D`, read off the real arithmetic.
+            pub fn red() -> Vec<u64> {
+                let mut e = vec![0u64; D];
+                e[1 % D] = 1;
+                let x = if D == 1 { EF::ONE } else { ef(&e) };
+                let mut p = EF::ONE;
+                for _ in 0..D {
+                    p *= x;
+                }
+                limbs(&p)
+            }
+
+            /// `decompose_to_bits::<BF>(x, n)` over the extension-field circuit (all limbs, `n <= EF::bits()`).
+            /// `vals`: `n` extension-valued slot contents (`n*D` limbs) or None for the honest hint.
+            /// Returns None when the builder refuses the width.
+            pub fn mbits_case(n: usize, x: &[u64], vals: Option<&[u64]>, full: bool) -> Option<Outcome> {
+                let mut b = CircuitBuilder::<EF>::new();
+                let xe = b.public_input();
+                let bits = b.decompose_to_bits::<BF>(xe, n).ok()?;
+                let k = n.min(8);
+                let idx = b.reconstruct_index_from_bits::<BF>(&bits[..k]).expect("recon");
+                b.tag(idx, "idx").ok();
+                let mut circuit = b.build().expect("build");
+                let bit_w: Vec<WitnessId> = bits.iter().map(|e| circuit.expr_to_widx[e]).collect();
+                let mut out = Outcome::default();
+                {
+                    let xw = circuit.expr_to_widx[&xe];
+                    let mut w: Vec<Option<EF>> = vec![None; circuit.witness_count as usize];
+                    w[xw.0 as usize] = Some(ef(x));
+                    for op in circuit.ops.iter() {
+                        if let Op::Hint { inputs, outputs, executor } = op {
+                            executor.execute(inputs, outputs, &mut w).expect("honest hint");
+                        }
+                    }
+                    out.honest = bit_w.iter().flat_map(|i| w[i.0 as usize].map(|v| limbs(&v)).unwrap_or(vec![u64::MAX; D])).collect();
+                }
+                let used: Vec<u64> = match vals {
+                    Some(v) => v.to_vec(),
+                    None => out.honest.clone(),
+                };
+                let fv: Vec<EF> = used.chunks(D).map(ef).collect();
+                out.canon = fv.iter().flat_map(limbs).collect::<Vec<_>>() == out.honest;
+                if vals.is_some() {
+                    for op in circuit.ops.iter_mut() {
+                        if let Op::Hint { executor, .. } = op {
+                            *executor = Box::new(FixedHint { vals: fv.clone() });
+                        }
+                    }
+                }
+                let mut runner = circuit.runner();
+                runner.set_public_inputs(&[ef(x)]).expect("set pub");
+                let traces = match runner.run() {
+                    Ok(t) => t,
+                    Err(e) => {
+                        out.run = err_name(&e);
+                        out.accept = if full { Some(false) } else { None };
+                        out.stage = "run".into();
+                        return Some(out);
+                    }
+                };
+                out.run = "ok".into();
+                out.consumer = traces.probe("idx").map(limbs).unwrap_or_default();
+                if !full {
+                    return Some(out);
+                }
+                let cfg = $cfg();
+                let prep = get_airs_and_degrees_with_prep::<$SC, EF, $D>(&circuit, &TablePacking::default(), &[], &[], ConstraintProfile::Standard);
+                let Ok((airs_degrees, prim, nonprim)) = prep else {
+                    out.accept = Some(false);
+                    out.stage = "prep".into();
+                    return Some(out);
+                };
+                let (airs, degs): (Vec<_>, Vec<usize>) = airs_degrees.into_iter().unzip();
+                let pd = ProverData::from_airs_and_degrees(&cfg, &airs, &degs);
+                let cpd = CircuitProverData::new(pd, prim, nonprim);
+                let prover = BatchStarkProver::new(cfg);
+                let proof = catch_unwind(AssertUnwindSafe(|| prover.prove_all_tables(&traces, &cpd)));
+                let proof = match proof {
+                    Ok(Ok(p)) => p,
+                    _ => {
+                        out.accept = Some(false);
+                        out.stage = "prove".into();
+                        return Some(out);
+                    }
+                };
+                let ver = catch_unwind(AssertUnwindSafe(|| prover.verify_all_tables::<EF>(&proof)));
+                out.accept = Some(matches!(ver, Ok(Ok(()))));
+                out.stage = "verify".into();
+                Some(out)
+            }
+
+            /// Value of the real all-limb `reconstruct_index_from_bits` chain on arbitrary
+            /// extension-valued slot contents.
+            pub fn mrecon_case(slots: &[u64]) -> Option<Vec<u64>> {
+                let mut b = CircuitBuilder::<EF>::new();
+                let m = slots.len() / D;
+                let ins: Vec<_> = (0..m).map(|_| b.public_input()).collect();
+                let r = b.reconstruct_index_from_bits::<BF>(&ins).ok()?;
+                b.tag(r, "r").ok()?;
+                let circuit = b.build().ok()?;
+                let mut runner = circuit.runner();
+                runner.set_public_inputs(&slots.chunks(D).map(ef).collect::<Vec<_>>()).ok()?;
+                let t = runner.run().ok()?;
+                t.probe("r").map(limbs)
+            }
         }
     };
 }
 
-ext_field_impl!(bb4, BabyBear, 4, BabyBearConfig, config::baby_bear);
-ext_field_impl!(kb4, KoalaBear, 4, KoalaBearConfig, config::koala_bear);
-ext_field_impl!(gl2, Goldilocks, 2, GoldilocksConfig, config::goldilocks);
+ext_field_impl!(bb4, BabyBear, BinomialExtensionField<BabyBear, 4>, 4, BabyBearConfig, config::baby_bear);
+ext_field_impl!(kb4, KoalaBear, BinomialExtensionField<KoalaBear, 4>, 4, KoalaBearConfig, config::koala_bear);
+ext_field_impl!(gl2, Goldilocks, BinomialExtensionField<Goldilocks, 2>, 2, GoldilocksConfig, config::goldilocks);
+// every other extension the prover dispatches on (`dispatch_by_ext_degree`: 5, 8) that p3 provides
+ext_field_impl!(kb5q, KoalaBear, QuinticTrinomialExtensionField<KoalaBear>, 5, KoalaBearConfig, config::koala_bear);
+ext_field_impl!(bb5, BabyBear, BinomialExtensionField<BabyBear, 5>, 5, BabyBearConfig, config::baby_bear);
+ext_field_impl!(bb8, BabyBear, BinomialExtensionField<BabyBear, 8>, 8, BabyBearConfig, config::baby_bear);
+ext_field_impl!(kb8, KoalaBear, BinomialExtensionField<KoalaBear, 8>, 8, KoalaBearConfig, config::koala_bear);
+ext_field_impl!(gl5, Goldilocks, BinomialExtensionField<Goldilocks, 5>, 5, GoldilocksConfig, config::goldilocks);
+
+/// Extension instances of the generalised cases: name -> (base field tag, D).
+const INSTS: [(&str, &str, usize); 8] = [
+    ("kb5q", "kb", 5), ("bb5", "bb", 5), ("bb8", "bb", 8), ("kb8", "kb", 8), ("gl5", "gl", 5),
+    ("bb4", "bb", 4), ("kb4", "kb", 4), ("gl2", "gl", 2),
+];
+fn inst_of(i: &str) -> (&'static str, usize) {
+    INSTS.iter().find(|t| t.0 == i).map(|t| (t.1, t.2)).expect("instance")
+}
+macro_rules! inst_dispatch {
+    ($i:expr, $f:ident ( $($a:expr),* )) => {
+        match $i {
+            "kb5q" => kb5q::$f($($a),*),
+            "bb5" => bb5::$f($($a),*),
+            "bb8" => bb8::$f($($a),*),
+            "kb8" => kb8::$f($($a),*),
+            "gl5" => gl5::$f($($a),*),
+            "bb4" => bb4::$f($($a),*),
+            "kb4" => kb4::$f($($a),*),
+            "gl2" => gl2::$f($($a),*),
+            _ => panic!("instance"),
+        }
+    };
+}
+fn red_i(i: &str) -> Vec<u64> {
+    inst_dispatch!(i, red())
+}
+fn coef_case_i(i: &str, mode: &str, cons: &str, x: &[u64], cs: Option<&[u64]>, full: bool) -> Outcome {
+    inst_dispatch!(i, coef_case(mode, cons, x, cs, full))
+}
+fn erecon_case_i(i: &str, cs: &[u64]) -> Option<Vec<u64>> {
+    inst_dispatch!(i, erecon_case(cs))
+}
+fn mbits_case_i(i: &str, n: usize, x: &[u64], vals: Option<&[u64]>, full: bool) -> Option<Outcome> {
+    inst_dispatch!(i, mbits_case(n, x, vals, full))
+}
+fn mrecon_case_i(i: &str, slots: &[u64]) -> Option<Vec<u64>> {
+    inst_dispatch!(i, mrecon_case(slots))
+}
 
 /// In-situ replay: the real `CircuitChallenger::sample_bits` (BabyBear, D=4 circuit, Poseidon2
 /// width 16) after observing `obs`; optionally the 31-output `BinaryDecompositionHint` inside it is
@@ -518,6 +670,13 @@ enum Case {
     Chal { obs: Vec<u64>, k: usize, dev: u64, full: bool },
     ERecon { f: String, c: Vec<u64> },
     Coef { f: String, mode: String, cons: String, x: Vec<u64>, c: Vec<u64>, full: bool, how: String },
+    /// general modulus / any D: ALU chain value on arbitrary slot contents, instance `i` of INSTS
+    GERecon { i: String, c: Vec<u64> },
+    GCoef { i: String, mode: String, cons: String, x: Vec<u64>, c: Vec<u64>, full: bool, how: String },
+    /// multi-limb bits over the extension-field circuit of instance `i`
+    MHint { i: String, n: usize, x: Vec<u64> },
+    MRecon { i: String, s: Vec<u64> },
+    MBits { i: String, n: usize, x: Vec<u64>, v: Vec<u64>, full: bool, how: String },
 }
 
 impl Case {
@@ -532,6 +691,26 @@ impl Case {
             Case::Coef { f, mode, cons, x, c, full, .. } => {
                 format!("{} {f} {} {} {mode} {cons} {} : {}", if *full { "coef" } else { "coefrun" }, ext_d(f), ext_w(f), nums(x), nums(c))
             }
+            Case::GERecon { i, c } => {
+                let (f, d) = inst_of(i);
+                format!("gerecon {f} {d} {} : {}", nums(&red_i(i)), nums(c))
+            }
+            Case::GCoef { i, mode, cons, x, c, full, .. } => {
+                let (f, d) = inst_of(i);
+                format!("{} {f} {d} {} {mode} {cons} {} : {}", if *full { "gcoef" } else { "gcoefrun" }, nums(&red_i(i)), nums(x), nums(c))
+            }
+            Case::MHint { i, n, x } => {
+                let (f, d) = inst_of(i);
+                format!("mhint {f} {d} {n} : {}", nums(x))
+            }
+            Case::MRecon { i, s } => {
+                let (f, d) = inst_of(i);
+                format!("mrecon {f} {d} {} : {}", nums(&red_i(i)), nums(s))
+            }
+            Case::MBits { i, n, x, v, full, .. } => {
+                let (f, d) = inst_of(i);
+                format!("{} {f} {d} {} {n} {} : {}", if *full { "mbits" } else { "mbitsrun" }, nums(&red_i(i)), nums(x), nums(v))
+            }
         }
     }
     fn json(&self) -> Value {
@@ -543,6 +722,11 @@ impl Case {
             Case::Chal { obs, k, dev, full } => json!({"kind":"chal","field":"bb","obs":obs,"k":k,"dev":dev,"full":full}),
             Case::ERecon { f, c } => json!({"kind":"erecon","field":f,"c":c}),
             Case::Coef { f, mode, cons, x, c, full, how } => json!({"kind":"coef","field":f,"mode":mode,"cons":cons,"x":x,"c":c,"full":full,"how":how}),
+            Case::GERecon { i, c } => json!({"kind":"gerecon","field":inst_of(i).0,"inst":i,"c":c}),
+            Case::GCoef { i, mode, cons, x, c, full, how } => json!({"kind":"gcoef","field":inst_of(i).0,"inst":i,"mode":mode,"cons":cons,"x":x,"c":c,"full":full,"how":how}),
+            Case::MHint { i, n, x } => json!({"kind":"mhint","field":inst_of(i).0,"inst":i,"n":n,"x":x}),
+            Case::MRecon { i, s } => json!({"kind":"mrecon","field":inst_of(i).0,"inst":i,"s":s}),
+            Case::MBits { i, n, x, v, full, how } => json!({"kind":"mbits","field":inst_of(i).0,"inst":i,"n":n,"x":x,"v":v,"full":full,"how":how}),
         }
     }
     fn from_json(v: &Value) -> Option<Case> {
@@ -564,6 +748,21 @@ impl Case {
             "chal" => Some(Case::Chal { obs: arr("obs")?, k: v["k"].as_u64()? as usize, dev: v["dev"].as_u64().unwrap_or(1), full: v["full"].as_bool().unwrap_or(true) }),
             "erecon" => Some(Case::ERecon { f, c: arr("c")? }),
             "coef" => Some(Case::Coef { f, mode: v["mode"].as_str()?.to_string(), cons: v["cons"].as_str().unwrap_or("a").to_string(), x: arr("x")?, c: arr("c")?, full: v["full"].as_bool().unwrap_or(true), how: v["how"].as_str().unwrap_or("replay").to_string() }),
+            "gerecon" | "gcoef" | "mhint" | "mrecon" | "mbits" => {
+                let i = v["inst"].as_str()?.to_string();
+                if !INSTS.iter().any(|t| t.0 == i) {
+                    return None;
+                }
+                let full = v["full"].as_bool().unwrap_or(true);
+                let how = v["how"].as_str().unwrap_or("replay").to_string();
+                match v["kind"].as_str()? {
+                    "gerecon" => Some(Case::GERecon { i, c: arr("c")? }),
+                    "gcoef" => Some(Case::GCoef { i, mode: v["mode"].as_str()?.to_string(), cons: v["cons"].as_str().unwrap_or("a").to_string(), x: arr("x")?, c: arr("c")?, full, how }),
+                    "mhint" => Some(Case::MHint { i, n: v["n"].as_u64()? as usize, x: arr("x")? }),
+                    "mrecon" => Some(Case::MRecon { i, s: arr("s")? }),
+                    _ => Some(Case::MBits { i, n: v["n"].as_u64()? as usize, x: arr("x")?, v: arr("v")?, full, how }),
+                }
+            }
             _ => None,
         }
     }
@@ -644,11 +843,32 @@ fn gen_bits(rng: &mut Rng, f: &str, full: bool) -> Case {
 }
 
 fn gen_coef(rng: &mut Rng, f: &str, full: bool) -> Case {
-    let d = ext_d(f);
+    let (mode, cons, x, c, how) = gen_coef_parts(rng, f, ext_d(f), None);
+    Case::Coef { f: f.into(), mode, cons, x, c, full, how }
+}
+
+fn gen_gcoef(rng: &mut Rng, inst: &str, full: bool) -> Case {
+    let (f, d) = inst_of(inst);
+    let (mode, cons, x, c, how) = gen_coef_parts(rng, f, d, Some(inst));
+    Case::GCoef { i: inst.into(), mode, cons, x, c, full, how }
+}
+
+/// `inst`: when given, the deviation "wrap-junk" (junk whose product with the basis element wraps
+/// around the modulus, compensated in the heads with the real arithmetic) is also generated.
+fn gen_coef_parts(rng: &mut Rng, f: &str, d: usize, inst: Option<&str>) -> (String, String, Vec<u64>, Vec<u64>, String) {
     let p = modulus(f);
     // consumer shape "b" (bus read of the coefficient slot) only where some row creates the slot:
     // alu (the recomposition chain creates it) and npoc (the recompose/coeff row creates it)
-    let (mode, cons) = [("alu", "a"), ("npo", "a"), ("npoc", "a"), ("npoc", "b"), ("alu", "b")][rng.usize(5)];
+    // The recompose tables exist only for the (field, extension) pairs `RecomposePreprocessor`
+    // knows: BabyBear D4, KoalaBear D4 / quintic D5, Goldilocks D2 (for any other extension the
+    // preprocessor silently returns no rows and `prove_all_tables` panics on the honest witness);
+    // the remaining instances are exercised through the ALU chain only.
+    let npo_ok = inst.map(|i| matches!(i, "kb5q" | "bb4" | "kb4" | "gl2")).unwrap_or(true);
+    let (mode, cons) = if npo_ok {
+        [("alu", "a"), ("npo", "a"), ("npoc", "a"), ("npoc", "b"), ("alu", "b")][rng.usize(5)]
+    } else {
+        [("alu", "a"), ("alu", "b")][rng.usize(2)]
+    };
     let x: Vec<u64> = (0..d).map(|_| rand_elem(rng, f)).collect();
     let mut c = vec![0u64; d * d];
     for i in 0..d {
@@ -657,7 +877,7 @@ fn gen_coef(rng: &mut Rng, f: &str, full: bool) -> Case {
     let sub = |a: u64, b: u64| ((a as u128 + p - b as u128 % p) % p) as u64;
     let add = |a: u64, b: u64| ((a as u128 + b as u128) % p) as u64;
     let t = 1 + rng.below(1000);
-    let how = match rng.below(7) {
+    let how = match rng.below(if inst.is_some() { 9 } else { 7 }) {
         0 => "honest",
         1 | 2 => {
             // move mass t from coefficient i+1 into limb 1 of coefficient i: c_i += t X, c_{i+1} -= t
@@ -687,6 +907,21 @@ fn gen_coef(rng: &mut Rng, f: &str, full: bool) -> Case {
             c[i * d] = add(c[i * d], t);
             "head-change"
         }
+        7 | 8 => {
+            // junk t X^j in c_i with i + j >= d: the product with e_i wraps around the modulus;
+            // compensate the (real) reduced vector in the heads of all coefficients
+            let i = 1 + rng.usize(d - 1);
+            let j = (d - i) + rng.usize(i); // d - i <= j <= d - 1
+            let mut junk = vec![0u64; d * d];
+            junk[i * d + j] = t;
+            if let Some(delta) = erecon_case_i(inst.unwrap(), &junk) {
+                c[i * d + j] = add(c[i * d + j], t);
+                for k in 0..d {
+                    c[k * d] = sub(c[k * d], delta[k]);
+                }
+            }
+            "wrap-junk"
+        }
         _ => {
             for v in c.iter_mut() {
                 *v = rand_elem(rng, f);
@@ -694,7 +929,109 @@ fn gen_coef(rng: &mut Rng, f: &str, full: bool) -> Case {
             "random"
         }
     };
-    Case::Coef { f: f.into(), mode: mode.into(), cons: cons.into(), x, c, full, how: how.into() }
+    (mode.into(), cons.into(), x, c, how.into())
+}
+
+fn limb_bits(f: &str) -> usize {
+    if f == "gl" { 64 } else { 31 }
+}
+
+fn gen_mbits(rng: &mut Rng, inst: &str, full: bool) -> Case {
+    let (f, d) = inst_of(inst);
+    let p = modulus(f);
+    let w = limb_bits(f);
+    let nmax = w * d;
+    let n = match rng.below(12) {
+        0..=3 => nmax,
+        4 | 5 => w * rng.range(1, d),
+        6 => nmax + 1 + rng.usize(3), // refused by the builder
+        7 => w * rng.range(1, d) - 1,
+        _ => rng.range(1, nmax),
+    };
+    let nch = n.div_ceil(w).min(d);
+    let len = |i: usize| if i < nch { w.min(n - i * w) } else { 0 };
+    // canonical coefficients: full chunks biased to v + p < 2^w; short chunks fit (mostly)
+    let mut x = vec![0u64; d];
+    for i in 0..d {
+        let l = len(i);
+        x[i] = if l == w {
+            let gap = (1u128 << w) - p;
+            match rng.below(5) {
+                0 | 1 => (rng.next() as u128 % gap) as u64,
+                2 => (gap - 1) as u64,
+                _ => rand_elem(rng, f),
+            }
+        } else if l > 0 {
+            if rng.chance(1, 12) { rand_elem(rng, f) } else { ((rng.next() as u128) % (1u128 << l) % p) as u64 }
+        } else if rng.chance(1, 10) {
+            1 + rng.below(5)
+        } else {
+            0
+        };
+    }
+    if n > nmax {
+        return Case::MBits { i: inst.into(), n, x, v: vec![0; n * d], full, how: "too-wide".into() };
+    }
+    // slot (chunk i, bit j) has flat position i*w + j
+    let mut b: Vec<Vec<u64>> = vec![];
+    for i in 0..nch {
+        for bit in bits_of(x[i] as u128, len(i)) {
+            let mut s = vec![0u64; d];
+            s[0] = bit;
+            b.push(s);
+        }
+    }
+    let full_chunks: Vec<usize> = (0..nch).filter(|&i| len(i) == w).collect();
+    let how = match rng.below(10) {
+        0 => "honest",
+        1 | 2 | 3 if !full_chunks.is_empty() => {
+            let i = *rng.pick(&full_chunks);
+            for (j, bit) in bits_of(x[i] as u128 + p, w).into_iter().enumerate() {
+                b[i * w + j][0] = bit;
+            }
+            "plus-p-limb"
+        }
+        4 if nch >= 2 => {
+            let i = rng.usize(nch - 1);
+            let m = len(i).min(len(i + 1));
+            for j in 0..m {
+                b.swap(i * w + j, (i + 1) * w + j);
+            }
+            "wrong-limb"
+        }
+        5 => {
+            let k = rng.usize(n);
+            b[k][0] ^= 1;
+            "flip"
+        }
+        6 if n >= 2 => {
+            let k = rng.usize(n - 1);
+            if (k + 1) % w != 0 {
+                b[k][0] += 2;
+                b[k + 1][0] = ((b[k + 1][0] as u128 + p - 1) % p) as u64;
+            }
+            "nonbool"
+        }
+        7 | 8 if nch >= 2 => {
+            // mass of a set bit (i+1, j) moved into the X-limb of slot (i, j): recomposition preserved,
+            // the slot is no base-field element
+            let cands: Vec<(usize, usize)> = (0..nch - 1).flat_map(|i| (0..len(i + 1)).map(move |j| (i, j))).filter(|&(i, j)| b[(i + 1) * w + j][0] == 1).collect();
+            if !cands.is_empty() {
+                let (i, j) = *rng.pick(&cands);
+                b[(i + 1) * w + j][0] = 0;
+                b[i * w + j][1] = 1;
+            }
+            "nonbase-bit"
+        }
+        9 => {
+            for s in b.iter_mut() {
+                s[0] = rng.below(2);
+            }
+            "random"
+        }
+        _ => "honest",
+    };
+    Case::MBits { i: inst.into(), n, x, v: b.concat(), full, how: how.into() }
 }
 
 struct Sink {
@@ -727,7 +1064,7 @@ impl Sink {
         writeln!(self.cases, "{line}").unwrap();
         let first = self.distinct.insert(line.clone());
         writeln!(self.implo, "{impl_line}").unwrap();
-        if first && !matches!(c, Case::Bits { how, .. } | Case::Coef { how, .. } if how == "honest") {
+        if first && !matches!(c, Case::Bits { how, .. } | Case::Coef { how, .. } | Case::GCoef { how, .. } | Case::MBits { how, .. } if how == "honest") {
             self.nontrivial.insert(line.clone());
         }
         if self.samples.len() < 6 && (self.evaluations % 37 == 1 || origin.starts_with("corpus")) {
@@ -884,6 +1221,115 @@ impl Sink {
                 }
                 (l, viol)
             }
+            Case::GERecon { i, c } => {
+                self.bump(format!("gerecon.{i}"));
+                match erecon_case_i(i, c) {
+                    Some(r) => (format!("gerecon {}", nums(&r)), None),
+                    None => ("gerecon err".into(), None),
+                }
+            }
+            Case::GCoef { i, mode, cons, x, c, full, how } => {
+                let (_, d) = inst_of(i);
+                let o = coef_case_i(i, mode, cons, x, Some(c), *full);
+                let honest_consumer = coef_case_i(i, mode, cons, x, None, false).consumer;
+                let mode = &match (mode.as_str(), cons.as_str()) {
+                    ("npoc", "a") => "npoc-unread".to_string(),
+                    ("npoc", _) => "npoc-read".to_string(),
+                    (m, _) => m.to_string(),
+                };
+                self.bump(format!("gcoef.{i}.{mode}.{how}.{}", if *full { "prove" } else { "run" }));
+                if *full {
+                    self.proofs += 1;
+                }
+                let l = if *full {
+                    format!("gcoef run={} accept={} canon={}", o.run, b01(o.accept == Some(true)), b01(o.canon))
+                } else {
+                    format!("gcoefrun run={} canon={}", o.run, b01(o.canon))
+                };
+                self.bump(format!("outcome.gcoef.{i}.{mode}.{}.{}", if o.accept == Some(true) { "accepted" } else if *full { "rejected" } else { "run-only" }, if o.canon { "canonical" } else { "noncanonical" }));
+                let mut viol = None;
+                if o.accept == Some(true) && !o.canon {
+                    let base = c.chunks(d).all(|l| l[1..].iter().all(|v| *v == 0));
+                    let identity = if mode == "alu" {
+                        erecon_case_i(i, c).map(|r| r == *x).unwrap_or(false)
+                    } else {
+                        c.chunks(d).map(|l| l[0]).collect::<Vec<_>>() == *x
+                    };
+                    // same defect as F16/F17/F18; the quintic trinomial instance carries its own suffix
+                    let class = format!("noncanonical-coeffs-accepted:{mode}:{}{}",
+                        if !identity { "recomposition-not-enforced" } else if base { "base-field-coeffs" } else { "non-base-coeff" },
+                        if i == "kb5q" { ":quintic" } else { "" });
+                    viol = Some(json!({"kind":"noncanonical-coeffs-accepted","class":class,
+                        "detail":{"instance":i,"D":d,"modulus_XD":red_i(i),"mode":mode,"x":x,"honest_coeffs":o.honest,"accepted_coeffs":c,"stage":o.stage,
+                                  "consumer_value_honest":honest_consumer,"consumer_value_accepted":o.consumer}}));
+                } else if *full && o.canon && o.accept != Some(true) {
+                    viol = Some(json!({"kind":"honest-decomposition-rejected","class":format!("honest-coeffs-rejected:{mode}"),
+                        "detail":{"instance":i,"mode":mode,"x":x,"stage":o.stage,"run":o.run}}));
+                }
+                (l, viol)
+            }
+            Case::MHint { i, n, x } => {
+                self.bump(format!("mhint.{i}"));
+                let (_, d) = inst_of(i);
+                match mbits_case_i(i, *n, x, None, false) {
+                    Some(o) => (format!("mhint {}", nums(&o.honest.chunks(d).map(|l| l[0]).collect::<Vec<_>>())), None),
+                    None => ("mhint err".into(), None),
+                }
+            }
+            Case::MRecon { i, s } => {
+                self.bump(format!("mrecon.{i}"));
+                match mrecon_case_i(i, s) {
+                    Some(r) => (format!("mrecon {}", nums(&r)), None),
+                    None => ("mrecon err".into(), None),
+                }
+            }
+            Case::MBits { i, n, x, v, full, how } => {
+                let (f, d) = inst_of(i);
+                let w = limb_bits(f);
+                let p = modulus(f);
+                let c = if *full { "mbits" } else { "mbitsrun" };
+                let Some(o) = mbits_case_i(i, *n, x, Some(v), *full) else {
+                    self.bump(format!("mbits.{i}.refused"));
+                    return (format!("{c} err"), None);
+                };
+                let limbs_used = n.div_ceil(w);
+                self.bump(format!("mbits.{i}.limbs{limbs_used}.{}.{how}.{}", if n % w == 0 { "full" } else { "partial" }, if *full { "prove" } else { "run" }));
+                if *full {
+                    self.proofs += 1;
+                }
+                let l = if *full {
+                    format!("mbits run={} accept={} canon={}", o.run, b01(o.accept == Some(true)), b01(o.canon))
+                } else {
+                    format!("mbitsrun run={} canon={}", o.run, b01(o.canon))
+                };
+                self.bump(format!("outcome.mbits.{}.{}", if o.accept == Some(true) { "accepted" } else if *full { "rejected" } else { "run-only" }, if o.canon { "canonical" } else { "noncanonical" }));
+                let fits = (0..d).all(|k| {
+                    let l = if k * w < *n { w.min(n - k * w) } else { 0 };
+                    (x[k] as u128) < (1u128 << l)
+                });
+                let mut viol = None;
+                if o.accept == Some(true) && !o.canon {
+                    let boolean = v.chunks(d).all(|s| s[0] <= 1 && s[1..].iter().all(|t| *t == 0));
+                    let congruent = boolean && (0..d).all(|k| {
+                        let val: u128 = v.chunks(d).skip(k * w).take(w).enumerate().map(|(j, s)| (s[0] as u128) << j).sum();
+                        val % p == x[k] as u128
+                    });
+                    let class = if !boolean {
+                        "noncanonical-bits-accepted:multi:non-boolean"
+                    } else if !congruent {
+                        "noncanonical-bits-accepted:multi:recomposition-not-enforced"
+                    } else {
+                        "noncanonical-bits-accepted:multi:limb-exceeds-modulus"
+                    };
+                    viol = Some(json!({"kind":"noncanonical-bits-accepted","class":class,
+                        "detail":{"instance":i,"n":n,"x":x,"honest_bits":o.honest,"accepted_slots":v,"stage":o.stage,
+                                  "low_bits_index_accepted":o.consumer}}));
+                } else if *full && o.canon && o.accept != Some(true) && fits {
+                    viol = Some(json!({"kind":"honest-decomposition-rejected","class":"honest-bits-rejected:multi",
+                        "detail":{"instance":i,"n":n,"x":x,"stage":o.stage,"run":o.run}}));
+                }
+                (l, viol)
+            }
         }
     }
 }
@@ -967,6 +1413,67 @@ pub fn main(args: &crate::Args) {
         let mut r = rng.fork();
         let c = if i % 2 == 0 { gen_bits(&mut r, f, true) } else { gen_coef(&mut r, f, true) };
         s.run_case(&c, &format!("gen:{seed}:p{i}"));
+    }
+    // generalised cases: every extension instance (any D, binomial / quintic trinomial modulus),
+    // ALU chain / recompose tables, and multi-limb bit decompositions over extension-field circuits
+    let insts: Vec<&str> = INSTS.iter().map(|t| t.0).collect();
+    let new_insts = &insts[..5];
+    let n_gval = args.u64("gvalue-cases", n_val / 3);
+    for i in 0..n_gval {
+        let mut r = rng.fork();
+        let inst = insts[(i / 3) as usize % insts.len()];
+        let (f, d) = inst_of(inst);
+        let w = limb_bits(f);
+        let origin = format!("gen:{seed}:gv{i}");
+        match i % 3 {
+            0 => {
+                let c: Vec<u64> = (0..d * d).map(|_| if r.chance(1, 3) { 0 } else { rand_elem(&mut r, f) }).collect();
+                s.run_case(&Case::GERecon { i: inst.into(), c }, &origin);
+            }
+            1 => {
+                let n = r.range(1, w * d);
+                let x: Vec<u64> = (0..d).map(|_| rand_elem(&mut r, f)).collect();
+                s.run_case(&Case::MHint { i: inst.into(), n, x }, &origin);
+            }
+            _ => {
+                let m = r.range(1, (w * d).min(3 * w + 5));
+                let mut sl = vec![0u64; m * d];
+                for k in 0..m {
+                    match r.below(4) {
+                        0 | 1 => sl[k * d] = r.below(2),
+                        2 => sl[k * d] = rand_elem(&mut r, f),
+                        _ => {
+                            for t in 0..d {
+                                sl[k * d + t] = rand_elem(&mut r, f);
+                            }
+                        }
+                    }
+                }
+                s.run_case(&Case::MRecon { i: inst.into(), s: sl }, &origin);
+            }
+        }
+    }
+    let n_grun = args.u64("grun-cases", n_run / 3);
+    for i in 0..n_grun {
+        let mut r = rng.fork();
+        let c = if i % 2 == 0 {
+            gen_gcoef(&mut r, new_insts[(i / 2) as usize % new_insts.len()], false)
+        } else {
+            gen_mbits(&mut r, insts[(i / 2) as usize % insts.len()], false)
+        };
+        s.run_case(&c, &format!("gen:{seed}:gr{i}"));
+    }
+    let n_gprove = args.u64("gprove-cases", n_prove / 4);
+    for i in 0..n_gprove {
+        let mut r = rng.fork();
+        // the quintic instance gets every second coefficient case
+        let c = if i % 2 == 0 {
+            let k = (i / 2) as usize;
+            gen_gcoef(&mut r, if k % 2 == 0 { "kb5q" } else { new_insts[(k / 2) % new_insts.len()] }, true)
+        } else {
+            gen_mbits(&mut r, insts[(i / 2) as usize % insts.len()], true)
+        };
+        s.run_case(&c, &format!("gen:{seed}:gp{i}"));
     }
     // in-situ CircuitChallenger::sample_bits: grind the observed values until the sample is below
     // 2^31 - p (what a prover does), then replay bits of sample + p; also dev = 0 (honest) and
